@@ -27,6 +27,15 @@
 #ifdef HAVE_STDINT_H
 #  include <stdint.h>
 #endif
+#ifdef CARES_VERIF
+#  include "ares_verif.h"
+#  define ARES_VERIF_SYNC(kind, obj, aux)        \
+    do {                                         \
+      if (ares_verif_sync_cb != NULL) {          \
+        ares_verif_sync_cb((kind), (obj), (aux)); \
+      }                                          \
+    } while (0)
+#endif
 
 #ifdef CARES_THREADS
 #  ifdef _WIN32
@@ -475,6 +484,9 @@ void ares_thread_mutex_lock(ares_thread_mutex_t *mut)
     return;
   }
   pthread_mutex_lock(&mut->mutex);
+#ifdef CARES_VERIF
+  ARES_VERIF_SYNC(ARES_VERIF_SYNC_LOCK, mut, NULL);
+#endif
 }
 
 void ares_thread_mutex_unlock(ares_thread_mutex_t *mut)
@@ -482,6 +494,9 @@ void ares_thread_mutex_unlock(ares_thread_mutex_t *mut)
   if (mut == NULL) {
     return;
   }
+#ifdef CARES_VERIF
+  ARES_VERIF_SYNC(ARES_VERIF_SYNC_UNLOCK, mut, NULL);
+#endif
   pthread_mutex_unlock(&mut->mutex);
 }
 
@@ -513,6 +528,9 @@ void ares_thread_cond_signal(ares_thread_cond_t *cond)
   if (cond == NULL) {
     return;
   }
+#ifdef CARES_VERIF
+  ARES_VERIF_SYNC(ARES_VERIF_SYNC_CSIGNAL, cond, NULL);
+#endif
   pthread_cond_signal(&cond->cond);
 }
 
@@ -521,6 +539,9 @@ void ares_thread_cond_broadcast(ares_thread_cond_t *cond)
   if (cond == NULL) {
     return;
   }
+#ifdef CARES_VERIF
+  ARES_VERIF_SYNC(ARES_VERIF_SYNC_CBROADCAST, cond, NULL);
+#endif
   pthread_cond_broadcast(&cond->cond);
 }
 
@@ -531,7 +552,13 @@ ares_status_t ares_thread_cond_wait(ares_thread_cond_t  *cond,
     return ARES_EFORMERR;
   }
 
+#ifdef CARES_VERIF
+  ARES_VERIF_SYNC(ARES_VERIF_SYNC_CWAIT, cond, mut);
+#endif
   pthread_cond_wait(&cond->cond, &mut->mutex);
+#ifdef CARES_VERIF
+  ARES_VERIF_SYNC(ARES_VERIF_SYNC_CWAKE, cond, mut);
+#endif
   return ARES_SUCCESS;
 }
 
@@ -574,9 +601,18 @@ ares_status_t ares_thread_cond_timedwait(ares_thread_cond_t  *cond,
 
   ares_timespec_timeout(&ts, timeout_ms);
 
+#ifdef CARES_VERIF
+  ARES_VERIF_SYNC(ARES_VERIF_SYNC_CWAIT, cond, mut);
+#endif
   if (pthread_cond_timedwait(&cond->cond, &mut->mutex, &ts) != 0) {
+#ifdef CARES_VERIF
+    ARES_VERIF_SYNC(ARES_VERIF_SYNC_CWAKE_TMO, cond, mut);
+#endif
     return ARES_ETIMEOUT;
   }
+#ifdef CARES_VERIF
+  ARES_VERIF_SYNC(ARES_VERIF_SYNC_CWAKE, cond, mut);
+#endif
 
   return ARES_SUCCESS;
 }
@@ -603,6 +639,9 @@ ares_status_t ares_thread_create(ares_thread_t    **thread,
     return ARES_ESERVFAIL; /* LCOV_EXCL_LINE: UntestablePath */
   }
 
+#ifdef CARES_VERIF
+  ARES_VERIF_SYNC(ARES_VERIF_SYNC_TCREATE, thr, thread);
+#endif
   *thread = thr;
   return ARES_SUCCESS;
 }
@@ -619,6 +658,9 @@ ares_status_t ares_thread_join(ares_thread_t *thread, void **rv)
   if (pthread_join(thread->thread, &ret) != 0) {
     status = ARES_ENOTFOUND;
   }
+#ifdef CARES_VERIF
+  ARES_VERIF_SYNC(ARES_VERIF_SYNC_TJOIN, thread, NULL);
+#endif
   ares_free(thread);
 
   if (status == ARES_SUCCESS && rv != NULL) {
@@ -821,6 +863,10 @@ void ares_queue_notify_empty(ares_channel_t *channel)
     return;
   }
 
+#ifdef CARES_VERIF
+  ARES_VERIF_SYNC(ARES_VERIF_SYNC_ACCESS, channel,
+                  (const void *)ares_llist_len(channel->all_queries));
+#endif
   /* We are guaranteed to be holding a channel lock already */
   if (ares_llist_len(channel->all_queries)) {
     return;
